@@ -1,19 +1,22 @@
 #!/usr/bin/env python3
 """Run the repository's own test suite (no build tags) and compare with BASELINE.json.
-Usage: baseline.py [repo_dir]   exit 0 iff every stable_pass test passed."""
+Usage: baseline.py [repo_dir] [--retry]   exit 0 iff every stable_pass test passed.
+With --retry, top-level tests that have missing sub-tests are re-run alone (the
+timing-based tests flake when the machine is loaded)."""
 import json, os, subprocess, sys
-repo = sys.argv[1] if len(sys.argv) > 1 else "/repo"
+args = [a for a in sys.argv[1:] if not a.startswith("--")]
+retry = "--retry" in sys.argv
+repo = args[0] if args else "/repo"
 base = json.load(open("/root/.vp/BASELINE.json"))
 want = set(base["stable_pass"])
 env = dict(os.environ, GOFLAGS="-mod=mod", GOPROXY="off")
 env.pop("GOSUMDB", None)
 env.pop("GOTOOLCHAIN", None)
 passed, failed = set(), set()
-for mod in (".", "moreinterp"):
+
+def run(mod, extra):
     d = os.path.join(repo, mod)
-    if not os.path.exists(os.path.join(d, "go.mod")):
-        continue
-    p = subprocess.run(["go", "test", "-json", "-vet=off", "-count=1", "-timeout", "25m", "./..."],
+    p = subprocess.run(["go", "test", "-json", "-vet=off", "-count=1", "-timeout", "25m"] + extra,
                        cwd=d, env=env, stdout=subprocess.PIPE, stderr=subprocess.STDOUT, text=True)
     for line in p.stdout.splitlines():
         try:
@@ -22,9 +25,31 @@ for mod in (".", "moreinterp"):
             continue
         if ev.get("Test") and ev.get("Action") in ("pass", "fail"):
             name = ev["Package"] + "::" + ev["Test"]
-            (passed if ev["Action"] == "pass" else failed).add(name)
+            if ev["Action"] == "pass":
+                passed.add(name)
+                failed.discard(name)
+            else:
+                if name not in passed:
+                    failed.add(name)
+
+mods = {"mvdan.cc/sh/v3": ".", "mvdan.cc/sh/moreinterp": "moreinterp"}
+for mod in (".", "moreinterp"):
+    if os.path.exists(os.path.join(repo, mod, "go.mod")):
+        run(mod, ["./..."])
 missing = sorted(want - passed)
-newfail = sorted(f for f in failed if f in want)
+if missing and retry:
+    tops = {}
+    for m in missing:
+        pkg, test = m.split("::", 1)
+        tops.setdefault(pkg, set()).add(test.split("/")[0])
+    for pkg, tests in tops.items():
+        mod = "moreinterp" if pkg.startswith("mvdan.cc/sh/moreinterp") else "."
+        rel = "./" + pkg.split("/", 3)[3] if pkg.count("/") >= 3 else "."
+        for attempt in range(2):
+            run(mod, ["-p", "1", "-parallel", "2", "-run", "^(" + "|".join(sorted(tests)) + ")$", rel])
+            if not (want - passed):
+                break
+    missing = sorted(want - passed)
 print(f"baseline: {len(want)} expected, {len(want & passed)} passed, {len(missing)} missing, {len(failed)} failed overall")
 for m in missing[:40]:
     print("  MISSING", m)
